@@ -530,6 +530,47 @@ def _work(chunk: list[Any]) -> dict:
     return res
 
 
+def unevaluated_minmax_cases() -> list[tuple[str, str]]:
+    """Min / Max built with evaluate=False (sympy would fold a number against a quantity): every
+    operand list of 2..3 distinct operands out of {0, -3 m, 2 m, symbol l, symbol h (both lengths),
+    oo} with at least one symbol; the returned expression is value-equal to the input for
+    negative and positive values of the symbols, and the dimension is length."""
+    from sympy.physics import units as U
+    from symplyphysics import Quantity, Symbol as LSymbol
+    from symplyphysics.core.dimensions import collect_expression_and_dimension
+    l_, h_ = LSymbol("l", U.length, real=True), LSymbol("h", U.length, real=True)
+    menu = {"0": sp.S.Zero, "-3m": Quantity(-3 * U.meter), "2m": Quantity(2 * U.meter), "l": l_,
+        "h": h_, "oo": sp.oo, "-oo": -sp.oo}
+    out = []
+    for op in (sp.Max, sp.Min):
+        for n in (2, 3):
+            for names in itertools.combinations(menu, n):
+                if not {"l", "h"} & set(names):
+                    continue
+                for order in (names, names[::-1]):
+                    e = op(*[menu[x] for x in order], evaluate=False)
+                    key = f"unevaluated:{op.__name__}({', '.join(order)})"
+                    try:
+                        got, dim = collect_expression_and_dimension(e)
+                    except Exception as ex:  # pylint: disable=broad-except
+                        out.append((key, f"raised {type(ex).__name__}: {short(ex)}"))
+                        continue
+                    msg = ""
+                    if dims.of_dimension(dim) != dims.L:
+                        msg = f"dimension {dim}, expected length"
+                    for lv, hv in ((-1, -5), (-5, 4), (1, -2), (4, 7), (-2, -1)):
+                        rep = {l_: sp.Integer(lv), h_: sp.Integer(hv)}
+                        rep_q = lambda x: x.xreplace({q: sp.sympify(q.scale_factor) for q in
+                            x.atoms(SymQuantity)}).xreplace(rep)
+                        want = op(*[rep_q(sp.sympify(a)) for a in e.args])
+                        have = rep_q(sp.sympify(got)).doit()
+                        if not msg and sp.simplify(want - have) != 0 and want != have:
+                            msg = (f"returned {short(got, 100)}: at l={lv}, h={hv} it is {have}, the "
+                                f"input is {want}")
+                    out.append((key, msg))
+    return out
+
+
 def main(run: Run) -> int:
     _setup()
     descs = rotate(list(space(run.thorough)), run.seed * 7919)
@@ -544,6 +585,10 @@ def main(run: Run) -> int:
         run.case(key, outcome="wrapper-identity")
         if viol:
             run.violation(key, viol, {"wrapper_identity": key})
+    for key, viol in unevaluated_minmax_cases():
+        run.case(key, outcome="unevaluated-minmax")
+        if viol:
+            run.violation(key, viol, {"unevaluated_minmax": key})
     return run.finish(
         rule="all trees with <= n internal nodes over dimensioned symbols, applied functions, "
         "derivatives, quantities, numbers; distinct = distinct canonical received trees with at "
@@ -556,6 +601,9 @@ def main(run: Run) -> int:
 
 def replay(case: dict) -> list[str]:
     _setup()
+    if "unevaluated_minmax" in case:
+        return [f"{k}: {v}" for k, v in unevaluated_minmax_cases() if v and k ==
+            case["unevaluated_minmax"]]
     if "wrapper_identity" in case:
         return [f"{k}: {v}" for k, v in wrapper_identity_cases() if v and k ==
             case["wrapper_identity"]]
